@@ -487,6 +487,7 @@ var tails = []string{
 	"v1/chat/completions", "v1/chat/completions?x=1&y=%2e%2e", "%2e%2e/%2e%2e/admin/secret?x=1", "%2E%2E/%2e%2E/admin/secret", "a/%2e%2e/b", "a/%2e%2e/%2e%2e/%2e%2e/b",
 	"..%2f..%2fadmin", "a%2f..%2f..%2fadmin", "%2e%2e%2f%2e%2e%2fadmin", "//x", "a//b/", "./a", "a/./b", "../x", "a/../../x", "a;p=1/b;q", "%252e%252e/x", "%252e%252e%252fx",
 	"%zz", "a%2", "\xc3\xa9", "%C3%A9/x", "%ff/x", "x?a=1&b=%20&c=", "x?a=1#frag", "x#frag", "x?", "x??a", "x?a=b?c=/../d", "x?%zz", "%2e", "%2e/", "%2e%2e", "%2e%2e/", "",
+	"olla/openai/v1/chat/completions", "olla/proxy/v1/x?a=1", "olla/", "olla", "ollama/api/tags", "olla/olla/x", // the backend is another Olla: the remainder itself begins with Olla's prefix
 	"//DECOY/x", "/DECOY/x", "http://DECOY/x", "%2f%2fDECOY/x", "@DECOY/x", "x?url=http://DECOY/", "\\\\DECOY\\x", "%5c%5cDECOY/x", "..;/x", "%2e%2e;/x", "a/..;/..;/x", "v1/../v1/models", "%2e%2e/%2e%2e/%2e%2e/%2e%2e/",
 }
 
